@@ -166,12 +166,18 @@ def run_long_sources(ctx, rounds, nthreads, children=None):
     import os
     import subprocess
     from concurrent.futures import ThreadPoolExecutor
-    children = children or (4 if ctx.tier == "quick" else 16)
+    children = children or (4 if ctx.tier == "quick" and rounds < 10 else 16)
+
+    env0 = dict(os.environ, PYAB_REPO=common.REPO)
+    p0 = subprocess.run(["/venv/bin/python", os.path.join(common.VERIF, "harness", "child_c17.py"), "ref"], stdout=subprocess.PIPE, stderr=subprocess.PIPE, env=env0, timeout=900)
+    if p0.returncode != 0:
+        return [{"kind": "long-source-child-crashed", "stderr": p0.stderr.decode("utf-8", "replace")[-300:]}]
+    ref_json = p0.stdout.decode("utf-8")
 
     def one(k):
         env = dict(os.environ, PYAB_REPO=common.REPO)
         p = subprocess.run(["/venv/bin/python", os.path.join(common.VERIF, "harness", "child_c17.py"), str(rounds), str(nthreads), str(ctx.seed * 100 + k)],
-                           stdout=subprocess.PIPE, stderr=subprocess.PIPE, env=env, timeout=900)
+                           input=ref_json.encode("utf-8"), stdout=subprocess.PIPE, stderr=subprocess.PIPE, env=env, timeout=900)
         if p.returncode != 0:
             return {"errors": [{"kind": "long-source-child-crashed", "stderr": p.stderr.decode("utf-8", "replace")[-300:]}], "counts": {}}
         return json.loads(p.stdout.decode("utf-8"))
@@ -186,19 +192,26 @@ def run_long_sources(ctx, rounds, nthreads, children=None):
     return errors
 
 
-def run_long_sources_here(ctx, rounds, nthreads, shift=0):
+def run_long_sources_here(ctx, rounds, nthreads, shift=0, ref=None, ref_only=False):
     """long parses: sources of 15 KB .. 300 KB (else-if chains of 300, 900 and 1400 branches, 500 branches of eight groups with
     block comments) compiled by worker threads at the same moment; every construction must end as it ends alone — with the
     evaluator it yields alone, or with the error it raises alone (the 1400 chain exceeds what the code generator's recursion allows
     on this interpreter, alone or not)"""
     from pyab_experiment.experiment_evaluator import ExperimentEvaluator
-    texts = [(300, long_chain(300)), (500, long_chain(500, 8, "/* " + "c" * 400 + " */")), (900, long_chain(900)), (1400, long_chain(1400)),
-             (250, long_chain(250, 2, "// c\n"))]
+    def nest(k):
+        inner = 'return "leaf" weighted 1'
+        for i in range(k):
+            inner = 'if x >= %d { %s } else { return "n%d" weighted 1 }' % (i, inner, i)
+        return "def e { splitters: u " + inner + " }"
+
+    storm = rounds >= 10           # the deeper search: every nesting depth 13..95 is met for the first time by all threads at once
+    texts = ([(-d, nest(d)) for d in range(13, 96)] if storm else []) + [(300, long_chain(300)), (500, long_chain(500, 8, "/* " + "c" * 400 + " */")), (900, long_chain(900)), (1400, long_chain(1400)),
+             (250, long_chain(250, 2, "// c\n")), (-20, nest(20)), (-35, nest(35)), (-36, nest(36)), (-60, nest(60)), (-61, nest(61)), (-90, nest(90))]
 
     def build(n, text):
         try:
             ev = ExperimentEvaluator(text)       # (stdout is redirected once, around the whole phase: redirect_stdout is not thread-safe)
-            return ["ok"] + [common.outcome_of(lambda x=x: ev(u="u1", x=x)) for x in (0, n // 2, n, n + 1)]
+            return ["ok"] + [common.outcome_of(lambda x=x: ev(u="u1", x=x)) for x in (0, abs(n) // 2, abs(n), abs(n) + 1)]
         except RecursionError:
             return ["RecursionError"]
         except Exception as ex:  # noqa
@@ -210,9 +223,36 @@ def run_long_sources_here(ctx, rounds, nthreads, shift=0):
     redirect.enter_context(common.contextlib.redirect_stdout(common.io.StringIO()))
     redirect.enter_context(common.contextlib.redirect_stderr(common.io.StringIO()))
     try:
-        ref = {n: build(n, t) for n, t in texts}
+        if ref_only:
+            # what every construction yields ALONE, in an interpreter that has done nothing else
+            return {str(n): build(n, t) for n, t in dict([(-d, nest(d)) for d in range(13, 96)] + texts).items()}
+        ref = {int(k): v for k, v in ref.items()} if ref else {n: build(n, t) for n, t in texts}
         sys.setswitchinterval(1e-6)
-        for r in range(rounds):
+        if storm:
+            # all threads compile the deepest source at the same moment, as the first deep compile of this interpreter: every
+            # nesting depth 13..95 is met for the first time by several threads within the same few milliseconds
+            for d in (95, 94, 93):
+                barrier = threading.Barrier(nthreads)
+                got = {}
+
+                def first_time(tid, d=d):
+                    try:
+                        barrier.wait(timeout=60)
+                    except threading.BrokenBarrierError:
+                        return
+                    got[tid] = build(-d, nest(d))
+                ths = [threading.Thread(target=first_time, args=(i,)) for i in range(nthreads)]
+                for t in ths:
+                    t.start()
+                for t in ths:
+                    t.join()
+                ctx.count("first-time-depth-rounds")
+                bad = [g for g in got.values() if g != ref.get(-d)]
+                if bad:
+                    errors.append({"kind": "construction-differs-when-nesting-depths-are-first-met-by-several-threads", "depth": d, "threads": nthreads,
+                                   "concurrent": bad[0][:2], "alone": (ref.get(-d) or [])[:2]})
+                    break
+        for r in range(0 if errors else rounds):
             barrier = threading.Barrier(nthreads)
             results = {}
 
@@ -301,6 +341,88 @@ def run_failing_recompile_race(ctx, rounds):
     return errors
 
 
+def schedule_scenarios():
+    """(name, make_ops) pairs for harness/sched.py; every closure is built inside the forked interpreter"""
+    def nest(k):
+        inner = 'return "leaf" weighted 1'
+        for i in range(k):
+            inner = 'if x >= %d { %s } else { return "n%d" weighted 1 }' % (i, inner, i)
+        return "def e { splitters: u " + inner + " }"
+
+    def build(text, xs=(0, 5, 50)):
+        from pyab_experiment.experiment_evaluator import ExperimentEvaluator
+        try:
+            ev = ExperimentEvaluator(text)
+            return ["ok"] + [common.outcome_of(lambda x=x: ev(u="u1", x=x)) for x in xs]
+        except Exception as ex:  # noqa
+            return [common.classify_exc(ex)]
+
+    old = 'def e { salt: "o" splitters: u return "old1" weighted 1, "old2" weighted 1 }'
+    new = 'def e { salt: "n" splitters: u /* c */ if x == 1 { return "n1" weighted 1 } else { return "new1" weighted 1, "new2" weighted 3 } } // x'
+    third = 'def e { salt: "t" splitters: u return "t1" weighted 2, "t2" weighted 1, "t3" weighted 1 }'
+    bad = 'def e { salt: "b" splitters: u if x == 1 { return "b1" weighted 1 } else if x == 2 { return "b2" weighted 1 } else { return "b3" weighted 1 } } @'
+    units = ["u%d" % i for i in range(12)]
+
+    def two_constructions():
+        return (lambda: build(nest(40))), (lambda: build(nest(41))), [lambda: build(nest(45)), lambda: build(long_chain(6))]
+
+    def recompile_vs_calls():
+        from pyab_experiment.experiment_evaluator import ExperimentEvaluator
+        ev = ExperimentEvaluator(old)
+
+        def a():
+            ev.recompile(new)
+            return "ok"
+        return a, (lambda: [common.outcome_of(lambda u=u: ev(u=u, x=0)) for u in units]), [lambda: [common.outcome_of(lambda u=u: ev(u=u, x=0)) for u in units]]
+
+    def refused_vs_accepted():
+        from pyab_experiment.experiment_evaluator import ExperimentEvaluator
+        ev = ExperimentEvaluator(old)
+
+        def rec(t):
+            try:
+                ev.recompile(t)
+                return "ok"
+            except Exception as ex:  # noqa
+                return common.classify_exc(ex)
+        calls = lambda: [common.outcome_of(lambda u=u: ev(u=u, x=0)) for u in units]
+        return (lambda: rec(bad)), (lambda: rec(third)), [calls, lambda: rec(old), calls, lambda: rec(bad), calls]
+
+    def same_text_twice():
+        from pyab_experiment.experiment_evaluator import ExperimentEvaluator
+        ev = ExperimentEvaluator(old)
+        calls = lambda: [common.outcome_of(lambda u=u: ev(u=u, x=0)) for u in units]
+
+        def a():
+            ev.recompile(new)
+            return calls()
+
+        def b():
+            ev.recompile(new)
+            return calls()
+        return a, b, [calls, lambda: (ev.recompile(old), calls())[1]]
+
+    def two_evaluators_same_names():
+        # two different experiments with the same name and field names, built concurrently, then both asked
+        return (lambda: build(new, (0, 1))), (lambda: build(third, (0, 1))), [lambda: build(old, (0, 1))]
+
+    return [("two constructions", two_constructions), ("recompile vs calls", recompile_vs_calls), ("refused vs accepted recompile", refused_vs_accepted),
+            ("same text recompiled twice", same_text_twice), ("two evaluators, same experiment name", two_evaluators_same_names)]
+
+
+def run_schedules(ctx, budget):
+    import sched
+    total = 0
+    for name, make_ops in schedule_scenarios():
+        findings, tried = sched.explore(make_ops, budget, ctx.rng)
+        total += tried
+        ctx.count("schedules:" + name, tried)
+        for f in findings[:1]:
+            ctx.violation(f"one-preemption schedule ({name}): thread A suspended at its line event {f.get('k')} of {f.get('events')} while thread B runs to completion — "
+                          f"the outcome is that of neither serial order: {json.dumps(f)[:300]}", dict(f, scenario=name))
+    return total
+
+
 def run(ctx):
     dur = DUR[ctx.tier]
     if ctx.obligation_breaks:
@@ -322,6 +444,8 @@ def run(ctx):
             ctx.violation(f"threads={n}: {e['kind']}: {json.dumps(e)[:200]}", e)
     for e in run_same_text_recompiles(ctx, 4 if ctx.tier == "quick" else 40, 6)[:2]:
         ctx.violation(f"after its own recompile(new) returned, a thread's call is still served by the old experiment: {json.dumps(e)[:200]}", e)
+    nsched = run_schedules(ctx, 40 if ctx.tier == "quick" else 2000)
+    ctx.extra["schedules_explored"] = nsched
     for e in run_failing_recompile_race(ctx, 6 if ctx.tier == "quick" else 60)[:2]:
         ctx.violation(f"a refused recompile overlapping a successful one on the same evaluator: {json.dumps(e)[:260]}", e)
     for e in run_long_sources(ctx, 3 if ctx.tier == "quick" else 30, 5)[:3]:
@@ -332,6 +456,9 @@ def run(ctx):
 
 
 def search(ctx):
+    run_schedules(ctx, 1500)
+    if ctx.violations:
+        return
     for e in run_failing_recompile_race(ctx, 40)[:2]:
         ctx.violation(f"a refused recompile overlapping a successful one on the same evaluator: {json.dumps(e)[:260]}", e)
     for e in run_long_sources(ctx, 20, 6)[:3]:
